@@ -29,27 +29,18 @@ theorem C10_write_step_owned (o : SaveOpts) (ss1 : SSt) (mp : Str) :
     refine ⟨[.file mp text sg], ht, ?_⟩
     intro w hw'; simp at hw'; subst hw'; exact (Or.inl rfl : _ ∨ _)
   | some wm =>
-    have key := C13.C13_watermark_step o ss1 mp wm hw
-    simp only at key
-    obtain ⟨k1, k2⟩ := key
-    by_cases heq : (compressedSuffix? mp).isSome = Prof.wantCompressed o.profile mp
-        (hasEbuildEntry (if o.sort then stableSort (fun a b => entryLt a.2 b.2) (ss1.st.entriesOf mp) else ss1.st.entriesOf mp))
-        (uncSizeFor o (signFor ss1.st mp) (dumpEntries false ((if o.sort then stableSort (fun a b => entryLt a.2 b.2) (ss1.st.entriesOf mp) else ss1.st.entriesOf mp).map (·.2)))) wm
-    · obtain ⟨_, sg, e2⟩ := k1 heq
-      refine ⟨[_], e2, ?_⟩
+    rcases C13.C13_watermark_cases o ss1 mp wm hw with ⟨text, sg, _, e2⟩ | ⟨newMp, text, sg, sg', hn, _, e2⟩
+    · refine ⟨[_], e2, ?_⟩
       intro w hw'; simp at hw'; subst hw'; exact (Or.inl rfl : _ ∨ _)
-    · obtain ⟨newMp, _, ⟨sg, sg', e2⟩, e3, e4⟩ := k2 heq
-      refine ⟨[_, _, _], e2, ?_⟩
+    · refine ⟨[_, _, _], e2, ?_⟩
       intro w hw'
       simp at hw'
       rcases hw' with rfl | rfl | rfl
       · exact (Or.inl rfl : _ ∨ _)
       · show _ ∨ _ ∨ _
-        cases hwant : Prof.wantCompressed o.profile mp
-            (hasEbuildEntry (if o.sort then stableSort (fun a b => entryLt a.2 b.2) (ss1.st.entriesOf mp) else ss1.st.entriesOf mp))
-            (uncSizeFor o (signFor ss1.st mp) (dumpEntries false ((if o.sort then stableSort (fun a b => entryLt a.2 b.2) (ss1.st.entriesOf mp) else ss1.st.entriesOf mp).map (·.2)))) wm with
-        | true => exact Or.inr (Or.inl (e3 hwant))
-        | false => exact Or.inr (Or.inr ⟨_, e4 hwant⟩)
+        rcases hn with hn | ⟨k, hn⟩
+        · exact Or.inr (Or.inl hn)
+        · exact Or.inr (Or.inr ⟨k, hn⟩)
       · show mp = mp
         rfl
 
